@@ -26,7 +26,7 @@ from elementpath.namespaces import XSD_NAMESPACE, XSD_NOTATION, XSD_ANY_ATOMIC_T
 from elementpath.helpers import node_position, get_double
 from elementpath.namespaces import XSD_ERROR, get_namespace, get_expanded_name
 from elementpath.datatypes import AbstractDateTime, UntypedAtomic, QName, AnyURI, \
-    Duration, Integer
+    Duration, Integer, NumericProxy
 from elementpath.xpath_nodes import ElementNode, DocumentNode, XPathNode, AttributeNode, \
     NamespaceNode
 from elementpath.sequences import xlist
@@ -682,8 +682,10 @@ def select__range_expression(self: XPathToken, context: ta.ContextType = None) -
 # Numerical operators
 @method(infix('idiv', bp=45))
 def evaluate__idiv_operator(self: XPathToken, context: ta.ContextType = None) -> int:
-    op1, op2 = self.get_operands(context)
+    op1, op2 = self.get_operands(context, cls=NumericProxy)
     if op1 is None or op2 is None:
+        if isinstance(context, XPathSchemaContext):
+            return 1  # static evaluation on the schema: the operands are not available
         raise self.error('XPST0005')
 
     try:
